@@ -13,7 +13,7 @@ import uuid
 
 from .. import common, describe, gen, refcodec, shard, walk
 from ..common import Result
-from .codec import _my_classes
+from .codec import _ZONES, _has_timestamp, _my_classes
 
 IMMUTABLE_LEAVES = (int, float, str, bytes, type(None), datetime.datetime, datetime.timedelta, uuid.UUID, enum.Enum)
 
@@ -272,7 +272,13 @@ def c15_worker(res: Result, i: int, n: int) -> None:
         res.count("huge_payload_instances", len(huge))
         trees = huge + trees
         nhuge = len(huge)
+        zoned = _has_timestamp(spec)
         for k, tree in enumerate(trees):
+            # timestamps expressed in other zones (fixed offsets, zones with DST folds): the instance - and every rebuild, copy, pickle of it -
+            # holds zone-aware datetimes whose == is Python's (PEP 495), which is what "equal" means for a copy
+            describe.INSTANCE_TZ = _ZONES[k % len(_ZONES)] if zoned and k % 2 else None
+            if describe.INSTANCE_TZ is not None:
+                res.count("instances_with_timestamps_in_other_zones")
             inst = describe.tree_to_instance(spec, tree)
             snap = lambda x, s=spec: refcodec.encode_bytes(s, describe.instance_to_tree(s, x))  # noqa: E731
             check_instance(res, cls, inst, lambda t=tree: describe.tree_to_instance(spec, t),
@@ -301,6 +307,7 @@ def c15_worker(res: Result, i: int, n: int) -> None:
                 else:
                     res.count("short_read_source_decoded")
                     check_instance(res, cls, dec2, lambda b=raw: entity_reader(cls)(io.BytesIO(b)), lambda: [], snap, ops, "decoded from a short-reading source")
+            describe.INSTANCE_TZ = None
             if gen.is_nontrivial(spec, tree):
                 distinct.add(hashlib.sha256((cls.__module__ + cls.__name__).encode() + refcodec.encode_bytes(spec, tree)).digest()[:12])
             if res.counters["instances"] % 2003 == 1:
@@ -321,8 +328,17 @@ def _record_classes(res: Result, ops: dict, distinct: set) -> None:
     def header(r):  # noqa: ANN001, ANN202
         return dict(key=r.choice((None, b"", b"k", r.randbytes(5))), value=r.choice((None, b"", r.randbytes(9))))
 
+    def when(r):  # noqa: ANN001, ANN202
+        us = r.choice((0, 0, 1, 456, 999))
+        if r.random() < 0.4:
+            # zone-aware, within an hour of a DST change: ambiguous wall-clock times (both folds occur)
+            z = r.choice(_ZONES)
+            t = E + datetime.timedelta(milliseconds=r.choice((1635642000000, 1636264800000)) + r.randint(-3599999, 3599999), microseconds=us)
+            return t.astimezone(z)
+        return E + datetime.timedelta(milliseconds=r.randint(0, 2**41), microseconds=us)
+
     def record(r):  # noqa: ANN001, ANN202
-        return dict(attributes=r.randint(-128, 127), timestamp=E + datetime.timedelta(milliseconds=r.randint(0, 2**41), microseconds=r.choice((0, 0, 1, 456, 999))),
+        return dict(attributes=r.randint(-128, 127), timestamp=when(r),
                     offset=r.randint(0, 2**40),
                     key=r.choice((None, b"", r.randbytes(3))), value=r.choice((None, r.randbytes(11))),
                     headers=tuple(RecordHeader(**header(r)) for _ in range(r.randint(0, 3))))
